@@ -521,6 +521,79 @@ class LeafBranches(Job):
                     R.append(self.prove(name, [], v == z3.RealVal(str(const))))
             except NoSem as ex:
                 R.append(Result(self.id, name, UNDECIDED, "AST", "", 0.0, f"return expression outside the leaf subset: {ex}"))
+        # ---- variable-arity heads: the accumulation loop, for EVERY arity, by the invariant rule ------------------------
+        # v(j) = meaning of prs(f.args[j]) (= meaning of f.args[j] by the induction hypothesis), S = left fold of the head's
+        # operation from its unit: S(0) = unit, S(j+1) = S(j) (+|*) v(j)  (= the n-ary SymPy head over the reals)
+        v = z3.Function("v_arg", z3.IntSort(), z3.RealSort())
+        for key, head, unit, opf in (("sympy.core.add.Add", "Add", 0, lambda a, b: a + b), ("sympy.core.mul.Mul", "Mul", 1, lambda a, b: a * b)):
+            name = f"sympy_to_casadi: {head} of ANY arity = fold of the converted arguments (loop invariant acc = fold of the first i arguments: init, preservation; the branch returns acc after the loop)"
+            body = branches.get(key)
+            shape_ok = (body is not None and len(body) == 3 and isinstance(body[0], ast.Assign) and len(body[0].targets) == 1 and isinstance(body[0].targets[0], ast.Name)
+                        and isinstance(body[0].value, ast.Constant) and isinstance(body[1], ast.For) and isinstance(body[1].target, ast.Name)
+                        and ast.unparse(body[1].iter) == "f.args" and not body[1].orelse and len(body[1].body) == 1 and isinstance(body[1].body[0], ast.AugAssign)
+                        and isinstance(body[2], ast.Return))
+            if shape_ok:
+                acc, loopvar, aug = body[0].targets[0].id, body[1].target.id, body[1].body[0]
+                shape_ok = (isinstance(aug.target, ast.Name) and aug.target.id == acc and ast.unparse(aug.value) == f"prs({loopvar})"
+                            and isinstance(body[2].value, ast.Name) and body[2].value.id == acc and type(aug.op) in (ast.Add, ast.Sub, ast.Mult, ast.Div))
+            def replay(model, head=head):
+                # concrete arity-5 instance on the real converter
+                xs5 = sympy.symbols("a b c d e")
+                expr = (sympy.Add if head == "Add" else sympy.Mul)(*xs5)
+                out, syms = symbolic.sympy_to_casadi(expr, symbols={})
+                vals = [1.5, -2.0, 0.25, 3.0, -0.5]
+                c = float(ca.Function("f", [syms[str(x)] for x in xs5], [out])(*vals))
+                want = sum(vals) if head == "Add" else math.prod(vals)
+                return {"inputs": dict(zip("abcde", vals)), "casadi": c, "expected": want} if abs(c - want) > 1e-12 else None
+
+            if not shape_ok:
+                w = None
+                try:
+                    w = replay(None)
+                except Exception as ex:
+                    w = {"inputs": {"arity": 5}, "error": f"{type(ex).__name__}: {ex}"}
+                msg = "branch is not `acc = c; for a in f.args: acc op= prs(a); return acc`: no invariant VCs generated"
+                if w:
+                    R.append(Result(self.id, name, REFUTED, "EVAL", "", 0.0, msg + "; an arity-5 instance run on the real converter gives a wrong value", w, 1))
+                else:
+                    R.append(Result(self.id, name, UNDECIDED, "AST", "", 0.0, msg + " (arity 2..5 instances run on the real converter are correct)"))
+                continue
+            c0 = z3.RealVal(str(Fraction(body[0].value.value)))
+            code_op = {ast.Add: lambda a, b: a + b, ast.Sub: lambda a, b: a - b, ast.Mult: lambda a, b: a * b, ast.Div: lambda a, b: a / b}[type(aug.op)]
+            S = z3.Function(f"S_{head}", z3.IntSort(), z3.RealSort())
+            i, n_ = z3.Ints("i n")
+            sacc = z3.Real("acc")
+            ax = [S(0) == unit, z3.ForAll([i], z3.Implies(i >= 0, S(i + 1) == opf(S(i), v(i))))]
+
+            R.append(self.prove(name + " [init]", ax, c0 == S(0), replay))
+            R.append(self.prove(name + " [preservation]", ax + [i >= 0, i < n_, sacc == S(i)], code_op(sacc, v(i)) == S(i + 1), replay))
+        # ---- matrices of ANY shape: the doubly nested loop assigns every entry its converted entry ----------------------
+        name = "sympy_to_casadi: matrix of ANY shape converted entry by entry (nested loop invariants)"
+        body = branches.get("sympy.matrices.dense.MutableDenseMatrix")
+        ok_shape = False
+        if body is not None and len(body) == 3 and isinstance(body[0], ast.Assign) and isinstance(body[1], ast.For) and isinstance(body[2], ast.Return):
+            outer = body[1]
+            inner = outer.body[0] if len(outer.body) == 1 and isinstance(outer.body[0], ast.For) else None
+            if inner is not None and len(inner.body) == 1 and isinstance(inner.body[0], ast.Assign):
+                m = ast.unparse(body[0].targets[0])
+                iv, jv = ast.unparse(outer.target), ast.unparse(inner.target)
+                ok_shape = (ast.unparse(body[0].value) == "ca.SX(f.shape[0], f.shape[1])" and ast.unparse(outer.iter) == "range(f.shape[0])"
+                            and ast.unparse(inner.iter) == "range(f.shape[1])" and ast.unparse(inner.body[0].targets[0]) == f"{m}[{iv}, {jv}]"
+                            and ast.unparse(inner.body[0].value) == f"prs(f[{iv}, {jv}])" and ast.unparse(body[2].value) == m and iv != jv)
+        if not ok_shape:
+            R.append(Result(self.id, name, UNDECIDED, "AST", "", 0.0, "branch is not the canonical `mat = ca.SX(r, c); for i in range(r): for j in range(c): mat[i, j] = prs(f[i, j]); return mat`"))
+        else:
+            ve = z3.Function("v_entry", z3.IntSort(), z3.IntSort(), z3.RealSort())
+            Mx = z3.Array("mat", z3.IntSort(), z3.ArraySort(z3.IntSort(), z3.RealSort()))
+            i, j, a_, b_, r_, c_ = z3.Ints("i j a b r c")
+            rows_done = lambda M, ii: z3.ForAll([a_, b_], z3.Implies(z3.And(a_ >= 0, a_ < ii, b_ >= 0, b_ < c_), M[a_][b_] == ve(a_, b_)))
+            row_part = lambda M, ii, jj: z3.ForAll([b_], z3.Implies(z3.And(b_ >= 0, b_ < jj), M[ii][b_] == ve(ii, b_)))
+            M1 = z3.Store(Mx, i, z3.Store(Mx[i], j, ve(i, j)))
+            base = [r_ >= 0, c_ >= 0, i >= 0, i < r_]
+            R.append(self.prove(name + " [inner loop: preservation]", base + [j >= 0, j < c_, rows_done(Mx, i), row_part(Mx, i, j)], z3.And(rows_done(M1, i), row_part(M1, i, j + 1))))
+            R.append(self.prove(name + " [outer loop: preservation]", base + [rows_done(Mx, i), row_part(Mx, i, c_)], rows_done(Mx, i + 1)))
+            R.append(self.prove(name + " [exit: every entry is its converted entry]", [r_ >= 0, c_ >= 0, rows_done(Mx, r_)],
+                                z3.ForAll([a_, b_], z3.Implies(z3.And(a_ >= 0, a_ < r_, b_ >= 0, b_ < c_), Mx[a_][b_] == ve(a_, b_)))))
         # Rational: prs(numerator) / prs(denominator)
         e = ret_expr(branches.get("sympy.core.numbers.Rational", []))
         ok = e is not None and ast.unparse(e) in ("prs(f.numerator) / prs(f.denominator)", "prs(f.p) / prs(f.q)")
@@ -567,6 +640,6 @@ MIN_OBLIGATIONS = {"quick": 60, "thorough": 60}
 TRUSTED = ["op-semantics tables in contracts/c19.py: CasADi opcodes with C99 semantics (fmod = a - b trunc(a/b), remainder = a - b round-half-even(a/b)), SymPy heads (Mod = a - b floor(a/b), Piecewise, relationals); transcendental functions as shared uninterpreted functions",
            "z3 (nonlinear real + integer arithmetic for floor/trunc)"]
 ASSUMPTIONS = ["structural induction: per-constructor obligations + compositionality give the property for all trees (induction itself not machine-checked)",
-               "variable-arity constructors (Add, Mul) are checked for arity 2..4 and matrices for shapes up to 3x3 (bounded, labelled); the loop over f.args is checked syntactically",
+               "variable-arity constructors (Add, Mul) and matrices: for every arity / shape by loop-invariant VCs generated from the ast of the real branch (canonical accumulate / nested-range shapes; ca.SX item assignment and Python's range / for semantics assumed); arity 2..4 and four shapes are additionally run on the real converter",
                "booleans are 0/1-valued reals on the CasADi side; logical opcodes are checked for 0/1 operands"]
-BOUNDED = ["Add/Mul arity 2..4", "matrix shapes (1,1), (2,1), (2,3), (3,3)"]
+BOUNDED = ["casadi_to_sympy matrices: shapes (1,1), (2,1), (2,3), (3,3) (its loop is over CasADi's own element access)"]
